@@ -80,5 +80,10 @@ func c11(c *core.Ctx) string {
 	c11NoOp(c)
 	c11Isolation(c)
 	muxCacheFresh(c, "R-C11-6")
+	c11SpecEquals(c)
+	// removing one object must not make another unavailable: the namespace-removal rule of C20
+	c.Alias("R-C20-5", "R-C11-8")
+	c20Namespaces(c)
+	c.Alias("R-C20-5", "")
 	return "Hot update is decided as structural necessary conditions: (1) a request loads the router generation once and nothing on its path can load it again (path-sensitive count over ServeHTTP, call-tree and type-reachability audit); (2) generations are immutable after publication and are published only when completely built (field-store audit by role + event ordering over all paths of reload and of the TrafficController/Supervisor create/update/apply functions); (3) no Inherit implementation (39 kinds, SSA taint from the predecessor parameter) writes predecessor state its Handle path reads; (4) the Equals guard dominates every rebuild (path-sensitive); (5) registry maps are per-name. Not decided: general data races, behaviour of closed resources under in-flight requests, aliasing through interfaces."
 }
